@@ -429,6 +429,43 @@ def j10(led, rid, ctx):
                   "nogood (e.g. a blocking clause) is never enforced" % show(e)[:80])
 
 
+def j14(led, rid, ctx):
+    """WHO-MAY-CALL + ORDER: learned nogoods are deleted only at the very start of
+    NogoodPropagator::propagate — before any watcher is looked at and, in particular, never between
+    the moment a freshly learned nogood is stored and the moment its asserting predicate is posted
+    with that nogood as its reason (the 'is it propagating?' test of the clean-up cannot see a
+    propagation that has not happened yet)"""
+    lib = ctx.lib
+    callers = {}
+    for g in lib.fns.values():
+        if "/tests" in g.file:
+            continue
+        for c in g.calls:
+            if c.name == "clean_up_learned_nogoods_if_needed":
+                callers.setdefault((g.parent or g.defn).rsplit("::", 1)[-1], []).append((g, c))
+    if not callers:
+        raise AnchorMissing("a call of clean_up_learned_nogoods_if_needed")
+    led.check(set(callers) == {"propagate"}, rid, "who-cleans-up", None, "only NogoodPropagator::propagate",
+              "the learned-nogood database is reduced from %s: outside the start of propagate a nogood that is "
+              "about to become (or already is) the reason of a trail entry can be deleted, and its id recycled "
+              "while the entry is still on the trail" % sorted(callers))
+    for g, c in callers.get("propagate", []):
+        firsts = [x for x in g.calls if x.name.startswith(("get_", "num_")) and "watcher" in x.name]
+        ok = all(g.cfg.dominates(c.bb, x.bb) for x in firsts) and all(g.cfg.dominates(c.bb, r) or True for r in g.cfg.returns)
+        led.check(ok and bool(firsts), rid, "clean-up-before-watchers", c.span, "dominates every watcher access",
+                  "propagate reduces the database after it has started to walk the watch lists")
+    f = lib.method("NogoodPropagator", "add_asserting_nogood")
+    posts = f.calls_named("post_predicate")
+    if not posts:
+        raise AnchorMissing("post_predicate in add_asserting_nogood")
+    DEL = ("clean_up_learned_nogoods_if_needed", "clean_up_learned_nogoods", "remove_nogood", "delete_nogood", "drain", "retain", "truncate", "clear")
+    for pc in posts:
+        before = [x for x in f.calls if x.name in DEL and f.cfg.reaches(x.bb, [pc.bb])]
+        led.check(not before, rid, "nothing-deleted-before-assert", pc.span, "no deleting call reaches the post",
+                  "add_asserting_nogood calls %s before the asserting predicate is posted: the new nogood is not "
+                  "yet propagating and may be the one that is deleted" % ", ".join(sorted({x.name for x in before})))
+
+
 def j13(led, rid, ctx):
     """removing a nogood's watcher removes exactly the watcher with that nogood id AND that right-hand
     side: the selecting closure is decided on all 16 combinations of (same id?, same value?) against
@@ -522,6 +559,7 @@ def run(ctx, led):
     run_rule(led, "J12", "conflict resolution returns in the Solving state also when nothing was learned (shared with C02-U23)", _C02.u23, ctx)
     from . import kernel as _kernel
     _kernel.run_bundle(led, ctx, "J")
+    run_rule(led, "J14", "WHO-MAY-CALL/ORDER: the learned-nogood database is reduced only at the start of propagate, never before an asserting predicate is posted", j14, ctx)
     run_rule(led, "J13", "watcher removal selects exactly the watcher with that nogood id and right-hand side", j13, ctx)
     from . import kernel as _kernel4
     _kernel4.run_lifecycle(led, ctx, "J")
